@@ -457,6 +457,9 @@ class Fn:
         except Exception:
             return None
         owner = self
+        if owner_path != self.path and owner_path not in self.facts.fns and owner_path.endswith('>') and '::<' in owner_path:
+            # `helper::<'_, T>::promoted[0]`: the instantiation's generic arguments are not part of the function path
+            owner_path = owner_path[:owner_path.rindex('::<')]
         if owner_path != self.path and owner_path in self.facts.fns:
             # a promoted constant of another body (code inlined from a helper)
             return self.facts.fns[owner_path].promoted_term(txt)
@@ -776,18 +779,35 @@ class Facts:
         if rep.get('inlined'):
             F = cls(inl)
             F.inlined = rep['inlined']
+            # helpers spliced into every one of their call sites are analysed in their callers' context only: on their
+            # own (parameters unconstrained, guards left behind in the caller) they would look unguarded to whole-crate rules
+            helpers = {h for _c, h in rep['inlined']}
+            still_called = set()
+            for f in F.fns.values():
+                if f.in_test:
+                    continue
+                for c in f.calls():
+                    for nm in (c.callee, c.resolved):
+                        if nm in helpers and f.path != nm and not f.path.startswith(nm + '::'):
+                            still_called.add(nm)
+            F.absorbed = helpers - still_called
         else:
             F = raw
             F.inlined = []
+            F.absorbed = set()
         F.raw = raw
         F.renamed = amap
         raw.renamed = amap
         return F
 
     # ----------------------------------------------------------- selections
-    def lib_fns(self):
-        """non-test bodies"""
-        return [f for f in self.fns.values() if not f.in_test]
+    def lib_fns(self, with_absorbed=False):
+        """non-test bodies (helpers that were virtually inlined at all their call sites are left out: their code is
+        analysed inside their callers; closures defined in them follow them)"""
+        ab = getattr(self, 'absorbed', set())
+        if with_absorbed or not ab:
+            return [f for f in self.fns.values() if not f.in_test]
+        return [f for f in self.fns.values() if not f.in_test and f.path not in ab]
 
     def fn(self, path):
         return self.fns.get(path)
